@@ -66,6 +66,9 @@ func c11Oracle(w *world, r *worldResult) (violation, outcome string) {
 	timeout := time.Duration(w.p.Timeout) * time.Second
 	lat := time.Duration(w.p.LatencyMs) * time.Millisecond
 	bound := 2*timeout + 3*time.Second + 4*lat + r.Sched.Stall
+	for _, pa := range w.p.Pauses {
+		bound += time.Duration(pa.ForMs) * time.Millisecond // a pause the user asked for is not the transfer's delay
+	}
 	said := serverSaid(r.SrvStdout)
 	srvOK := r.SrvDone && r.SrvErr == "" && strings.HasPrefix(said, "Saved ")
 	cliOK := strings.HasPrefix(r.ClientExit, "Saved ")
@@ -168,6 +171,24 @@ func c11Run(j vs.Job) *vs.JobResult {
 			add(func(wp *wParams) { wp.MsgFaults = []wMsgFault{{"s2c", k, kind}} })
 		}
 	}
+	// silence after the user has paused and continued the transfer once (the timers of a blocked read are
+	// replaced on "continue"): pause 0.5 s after the start for 0.5 s, protocol >= 3 only
+	if p.W.Protocol == 0 || p.W.Protocol >= 3 {
+		for k := firstK; k <= nC2S; k += 2 {
+			k := k
+			add(func(wp *wParams) {
+				wp.MsgFaults = []wMsgFault{{"c2s", k, "silence"}}
+				wp.Pauses = []wPause{{AtMs: 500, ForMs: 500}}
+			})
+		}
+		for k := 1; k <= nS2C; k += 2 {
+			k := k
+			add(func(wp *wParams) {
+				wp.MsgFaults = []wMsgFault{{"s2c", k, "silence"}}
+				wp.Pauses = []wPause{{AtMs: 500, ForMs: 500}}
+			})
+		}
+	}
 	// both directions go silent around the same point
 	for k := firstK; k <= nC2S && k <= nS2C; k++ {
 		k := k
@@ -245,7 +266,7 @@ func init() {
 		ID:    "C11",
 		Level: "fault_enumeration",
 		Rule: "per configuration: connection silence / write error from every message index on in either direction (after the handshake began) and in both at once; every k-th call of every local I/O seam (destination write, source read, archive read/write) failing; " +
-			"the source shrinking on disk before every k-th read; thorough: every schedule with <=1 deviation (preemption, select alternative, timer landing first) on top of each fault",
+			"the source shrinking on disk before every k-th read; silence after a pause/continue cycle (every 2nd message index); thorough: every schedule with <=1 deviation (preemption, select alternative, timer landing first) on top of each fault",
 		Assumptions: []string{"timeout > 0 (3 s virtual); a timeout <= 0 asks for no bound and nothing is asserted", "the bound asserted is 2*timeout + 3 s; the maximum observed is reported",
 			"pumps that live as long as the connection by design are excluded from the leak oracle by spawn site"},
 		QuickBudget: 110, ThoroughBudget: 1500, DiedIsViolation: true,
